@@ -8,7 +8,7 @@ use debian_control::relations::{BuildProfile, VersionConstraint};
 use serde_json::{json, Value};
 use std::str::FromStr;
 
-const NAMES: [&str; 6] = ["", "alpha", "beta", "gamma", "delta", "epsilon"];
+const NAMES: [&str; 10] = ["", "alpha", "beta", "gamma", "delta", "epsilon", "zeta", "eta", "theta", "iota"];
 
 pub fn rel_exp(r: &Value) -> RelExp {
     let v = r["v"].as_u64().unwrap_or(0);
@@ -77,6 +77,9 @@ fn styled_rel(r: &RelExp, generous: bool) -> String {
 pub fn base_text(lay: &str, f0: &Value) -> String {
     if lay == "inner_compact" || lay == "inner_generous" {
         return model_structure(f0).iter().map(|e| e.iter().map(|r| styled_rel(r, lay == "inner_generous")).collect::<Vec<_>>().join(" | ")).collect::<Vec<_>>().join(", ");
+    }
+    if lay == "long" {
+        return model_structure(f0).iter().map(|e| e.iter().map(super::rel::canon_rel).collect::<Vec<_>>().join(" | ")).collect::<Vec<_>>().join(",\n ");
     }
     if lay == "comma_newline" {
         return model_structure(f0).iter().map(|e| format!("{},\n", e.iter().map(super::rel::canon_rel).collect::<Vec<_>>().join(" | "))).collect::<Vec<_>>().join(" ");
